@@ -40,7 +40,7 @@ def run(ctx):
     un = START + "::{closure#0}::{closure#0}"
     t = fx.thir_body(un)
     chk.analysed(un)
-    it = A.Interp(fx, crates=(AGENT,), max_paths=4000, no_inline=("Updater::<T>::run", "task::handle_task"))
+    it = A.Interp(fx, crates=(AGENT,), max_paths=4000, no_inline=("Updater::<T>::run",) + _join_names(fx))
     it.model_iterators = False
     paths = it.explore(un)
     chk.extra["paths_explored"] = len(paths)
@@ -105,8 +105,24 @@ def const_secs(fx, v):
     return None
 
 
+_JOIN = {}
+
+
+def _join_names(fx):
+    """Short names of the helper(s) that join a spawned task (handle_task today), found by signature."""
+    if id(fx) not in _JOIN:
+        from .agent_common import join_helpers
+        _JOIN.clear()
+        _JOIN[id(fx)] = tuple(T.short(h, 2) for h in join_helpers(fx))
+    return _JOIN[id(fx)]
+
+
+def _joined_in(key):
+    return any(n in key for v in _JOIN.values() for n in v)
+
+
 def _about_job(key):
-    return "handle_task" in key or "JoinHandle" in key or "spawn" in key or "Updater::run" in key
+    return _joined_in(key) or "JoinHandle" in key or "spawn" in key or "Updater::run" in key
 
 
 def job_result(p):
@@ -165,7 +181,7 @@ def r1_equations(chk, fx, t, paths, outcomes):
         return asg[-1][2] if asg else None
     # initial value: what the first iteration would hand to reset_after when the loop state is *not* abstracted — a constant of 60 s
     init = None
-    it0 = A.Interp(fx, crates=(AGENT,), max_paths=4000, no_inline=("Updater::<T>::run", "task::handle_task"), havoc_loops=False)
+    it0 = A.Interp(fx, crates=(AGENT,), max_paths=4000, no_inline=("Updater::<T>::run",) + _join_names(fx), havoc_loops=False)
     it0.model_iterators = False
     for p in classify(it0.explore(t["def"])).get("tick", []):
         ra = p.calls("Interval::reset_after")
@@ -214,7 +230,7 @@ def r1_equations(chk, fx, t, paths, outcomes):
 def it0_cap(fx, t, var):
     """Fields of the back-off variable that hold `self.period` when the loop is entered (a cap kept inside a back-off type) and that no
     path of the loop changes."""
-    it0 = A.Interp(fx, crates=(AGENT,), max_paths=4000, no_inline=("Updater::<T>::run", "task::handle_task"), havoc_loops=False)
+    it0 = A.Interp(fx, crates=(AGENT,), max_paths=4000, no_inline=("Updater::<T>::run",) + _join_names(fx), havoc_loops=False)
     it0.model_iterators = False
     caps = None
     for p in it0.explore(t["def"]):
@@ -269,7 +285,7 @@ def r2_reset(chk, t, outcomes):
     for p in ticks:
         sp = p.calls("tokio::spawn") + p.calls("task::spawn")
         spawned_run = any("Updater::run" in A.vstr(a) or "run(" in A.vstr(a) for c in sp for a in c[2])
-        joined = any(k.startswith(("variant:", "notvariant:")) and "handle_task" in k and ("spawn" in k) for k in p.assume)
+        joined = any(k.startswith(("variant:", "notvariant:")) and _joined_in(k) and ("spawn" in k) for k in p.assume)
         iso = iso and spawned_run and joined
     chk.instance("C19/R2", "the job runs in a spawned task joined through handle_task: a panicking run counts as a failed run", t["def"], loc_of(t.get("sp")),
                  holds=iso, key="C19/R2 task::Loop::start job-not-isolated-from-panic",
